@@ -10,6 +10,7 @@ package linter
 import (
 	gocontext "context"
 	"errors"
+	"io"
 	"os/exec"
 	"time"
 
@@ -23,7 +24,7 @@ import (
 // C18-a: several lint plugins run for one statement; every diagnostic each of
 // them returns is reported, under every interleaving within the preemption
 // bound, and no data race occurs.  The plugin processes are stubs: LookPath
-// finds the command or not, Output fails or returns a response with 0..2
+// finds the command or not, Output drains Cmd.Stdin as os/exec does and fails without a request, or fails, or returns a response with 0..2
 // diagnostics - all symbolic; the goroutines, the WaitGroup, Linter.Error and
 // its lock are the real code, run under the engine's scheduler.
 
@@ -42,6 +43,15 @@ func plCommand(c gocontext.Context, name string, args ...string) *exec.Cmd {
 
 func plOutput(c *exec.Cmd) ([]byte, error) {
 	o := plOutcome[c.Path[len("/bin/"):]]
+	// what os/exec does with Cmd.Stdin: copy it to the child until EOF.  A plugin
+	// that does not receive the encoded statement cannot decode its request.
+	var in []byte
+	if c.Stdin != nil {
+		in, _ = io.ReadAll(c.Stdin)
+	}
+	if len(in) == 0 {
+		return nil, errors.New("exit status 1: unexpected frame found (no request on stdin)")
+	}
 	if o == 1 {
 		return nil, errors.New("exit status 1")
 	}
